@@ -83,7 +83,7 @@ def _labels(tape: Tape, n: int, style: str) -> list:
 
 def gen_register(tape: Tape, prof: dict) -> list:
     n = tape.int(prof["n_atoms"][0], prof["n_atoms"][1], "n_atoms")
-    layout = tape.choice(["random", "chain", "ring", "grid"], "layout")
+    layout = tape.choice(prof.get("layouts") or ["random", "chain", "ring", "grid"], "layout")
     dmin = prof["min_dist"]
     pts: list[tuple[float, float]] = []
     if layout == "chain":
@@ -214,6 +214,9 @@ def gen_scenario(tape: Tape, prof_over: dict | None = None) -> dict:
 def build_sequence(scn: dict) -> Sequence:
     reg = Register({a[0]: (a[1], a[2]) for a in scn["atoms"]})
     dev = mod_device() if scn.get("modulation") else MockDevice
+    if scn.get("device_noise"):
+        # the noise model travels with the device (EmulationConfig.prefer_device_noise_model) instead of the config
+        dev = dataclasses.replace(dev, noise_model=make_noise(scn["device_noise"]))
     seq = Sequence(reg, dev)
     if scn.get("xy"):
         seq.declare_channel("g", "mw_global")
@@ -399,6 +402,8 @@ def make_config(scn: dict, cfg: dict, **over: Any):
         kw["noise_model"] = noise
     if c.get("n_trajectories") is not None:
         kw["n_trajectories"] = c["n_trajectories"]
+    if c.get("prefer_device_noise"):
+        kw["prefer_device_noise_model"] = True
     if c.get("interaction_matrix") is not None:
         kw["interaction_matrix"] = c["interaction_matrix"]
     if c.get("interaction_cutoff"):
